@@ -198,7 +198,7 @@ theorem exec_budget (B : Builtins) (env : Env) (code : List Instr) :
 
 theorem nested_runs_one_lower (B : Builtins) (b : Nat) (env : Env) (code : List Instr) (r : Bool) (log : Log) :
     runAt B (b + 1) env code r log =
-      (match loop B (runAt B b) (runAt B b) env code (blockFuel code) 0 { stack := [], log := log } with
+      (match loop B (runAt B b) (runFresh B) env code (blockFuel code) 0 { stack := [], log := log } with
        | .fail a l => { res := .error a, log := l }
        | .ok _ s => finish (runAt B b) env r s) := rfl
 
